@@ -89,6 +89,8 @@ def run_case(ctx, res, p):
         Kuf = cu.kernel_np(cov, basis, X2)
         M = Lnp @ Nm @ Lnp.T + Kuf @ Kuf.T
     condM = np.linalg.cond(M)
+    if p["gp_type"] != "full":
+        condM = max(condM, np.linalg.cond(Kbb + jitter * np.eye(nb)))
     scale = max(np.max(np.abs(out - mu)), 1e-300)
     tol = 1e3 * EPS * condM * (1 + abs(mu) / scale) + 1e-11
     res.dev("cond_max", condM)
